@@ -79,6 +79,61 @@ example :
     let v : VarLay := { begin := 4, xsz := 8, shape := [0], isRec := true, recsize := 12 }
     (strideFlatten v [0] [2] [2]).1 = [0, 24] := by decide
 
+/-- **ncmpio_first_offset is correct**: the transcription (index loop over `dsizes[]`, separate treatment
+    of the first / last / record dimension) computes exactly the specified offset of element `start`,
+    for every rank and shape, fixed and record variables. -/
+theorem firstOffset_eq (v : VarLay) (start : List Nat) (h : start.length = v.shape.length)
+    (hrec : v.isRec = true → v.shape ≠ []) : firstOffset v start = elemOff v start := by
+  unfold firstOffset elemOff
+  cases hsh : v.shape with
+  | nil =>
+    have hs : start = [] := List.length_eq_zero_iff.mp (by rw [h, hsh]; rfl)
+    cases hr : v.isRec with
+    | false => simp [hs, rowMajor]
+    | true => exact absurd hsh (hrec hr)
+  | cons a as =>
+    rw [hsh] at h
+    cases start with
+    | nil => simp at h
+    | cons s ss =>
+      simp only [List.length_cons, Nat.add_right_cancel_iff] at h
+      have hn : (as.length + 1 = 0) = False := by simp
+      simp only [List.length_cons, hn, ↓reduceIte]
+      cases as with
+      | nil =>
+        have hs : ss = [] := List.length_eq_zero_iff.mp h
+        subst hs
+        cases v.isRec <;> simp [sumRange, rowMajor, prod, dsizes] <;> omega
+      | cons b bs =>
+        have hl := sumRange_rowMajor (b :: bs) ss h.symm (by simp)
+        simp only [List.length_cons, Nat.add_sub_cancel] at hl
+        have e4 : (fun j => (s :: ss).getD (j + 1) 0 * dsizes (a :: b :: bs) (j + 2))
+                = (fun j => ss.getD j 0 * prod (List.drop (j + 1) (b :: bs))) := by
+          funext j; rfl
+        have e3 : (s :: ss).getD (bs.length + 1 + 1 - 1) 0 = ss.getD bs.length 0 := rfl
+        have e2 : dsizes (a :: b :: bs) 1 = prod (b :: bs) := rfl
+        have e5 : bs.length + 1 + 1 - 2 = bs.length := by omega
+        have e6 : (bs.length + 1 + 1 > 1) = True := by simp
+        simp only [List.length_cons, e4, e3, e2, e5, e6, ↓reduceIte, List.getD_cons_zero]
+        cases v.isRec with
+        | false =>
+          simp only [Bool.false_eq_true, ↓reduceIte, rowMajor]
+          rw [← hl]
+          have : (s * prod (b :: bs) + (sumRange bs.length fun j => ss.getD j 0 * prod (List.drop (j + 1) (b :: bs))) + ss.getD bs.length 0) * v.xsz
+               = (s * prod (b :: bs) + ((sumRange bs.length fun j => ss.getD j 0 * prod (List.drop (j + 1) (b :: bs))) + ss.getD bs.length 0)) * v.xsz := by
+            rw [Nat.add_assoc]
+          rw [this]; omega
+        | true =>
+          have hd1 : List.drop 1 (a :: b :: bs) = b :: bs := rfl
+          have hd2 : List.drop 1 (s :: ss) = ss := rfl
+          simp only [↓reduceIte, List.headD_cons, hd1, hd2]
+          rw [← hl]
+          have : (ss.getD bs.length 0 + sumRange bs.length fun j => ss.getD j 0 * prod (List.drop (j + 1) (b :: bs)))
+               = ((sumRange bs.length fun j => ss.getD j 0 * prod (List.drop (j + 1) (b :: bs))) + ss.getD bs.length 0) := Nat.add_comm _ _
+          rw [this]; omega
+
+example : firstOffset { begin := 64, xsz := 4, shape := [0, 3, 5], isRec := true, recsize := 100 } [2, 1, 3] = 296 := by decide
+
 /-! ### elements stay inside their variable and never share bytes -/
 
 theorem elem_inside_fixed (v : VarLay) (hf : v.isRec = false) (idx : List Nat) (hb : inBounds v.shape idx) :
@@ -157,7 +212,7 @@ theorem disjoint_puts_commute (f : File) (o1 o2 : Nat) (b1 b2 : List UInt8)
 example : inBounds [3, 5] [2, 4] ∧ inBounds [3, 5] [0, 0] := by decide
 
 def obligations : List String := [
-  "strideFlatten_offsets", "elem_inside_fixed", "elems_disjoint_fixed", "elem_inside_rec", "elems_disjoint_rec",
+  "strideFlatten_offsets", "firstOffset_eq", "elem_inside_fixed", "elems_disjoint_fixed", "elem_inside_rec", "elems_disjoint_rec",
   "put_get_roundtrip", "disjoint_puts_commute"
 ]
 end PnVerif.Props.C01
